@@ -2,6 +2,7 @@ package checks
 
 import (
 	"fmt"
+	"os"
 	"sort"
 	"strconv"
 	"strings"
@@ -409,6 +410,10 @@ func (d *drive) send(b []byte) *proto.Event {
 	}
 
 	d.st = d.s.Send(b)
+
+	if os.Getenv("VERIF_TRACE") != "" {
+		fmt.Printf("TRACE send %q -> %s cmds=%v\n", b, d.st, cmdsOf(d.st))
+	}
 
 	if f := stopFailure(d.st); f != nil {
 		d.fail = f
